@@ -896,6 +896,10 @@ def r16_8(rep: Report, idx: Index) -> set[str]:
     if gd is None:
         raise AnalysisError('generate_drm_location_tuples vanished')
     handled = _handled_literals(gd.node, 'drm_name')
+    # the same read off the normal form (a lookup in a table of implementations is a chain of comparisons there)
+    for c_, ef in rep.repo.expanded_functions('dashlive/server/requesthandler/drm_context.py'):
+        if getattr(ef, 'name', '') == 'generate_drm_location_tuples':
+            handled |= _handled_literals(ef, 'drm_name')
     if validates and names and names <= handled:
         rep.ok(rid, construct, 'drm', f'accepts {sorted(names)}; consumer handles {sorted(handled)}')
         ok.add('drm')
